@@ -10,6 +10,7 @@ import (
 	"github.com/GuanceCloud/platypus/pkg/engine"
 	"github.com/GuanceCloud/platypus/pkg/engine/runtimev2"
 	"github.com/GuanceCloud/platypus/pkg/errchain"
+	"github.com/GuanceCloud/platypus/pkg/token"
 )
 
 func init() {
@@ -139,10 +140,20 @@ func replayBind(args []string) (any, error) {
 					npos++
 				}
 			}
-			text := "f(" + strings.Join(parts, ", ") + ")"
+			// the call is judged wherever it is written: as a statement, as a positional argument, as the value of a named
+			// argument, inside a list in a named argument, two levels down, in a condition (contexts rotate over the cases)
+			call := "f(" + strings.Join(parts, ", ") + ")"
+			ctxs := []string{"%s", "w(%s)", "w(v = %s)", "w(v = [%s])", "w(1, v = w(v = %s))", "if %s == 0 {\n}", "x = [%s]", "w(a = 1, v = %s)"}
+			text := fmt.Sprintf(ctxs[(sum.Evaluations+variant)%len(ctxs)], call)
 			sig := "bind:" + sigText(v.Params) + text
 			var got []any
 			var getErr *errchain.PlError
+			type getterErr struct {
+				getter string
+				param  int
+				err    *errchain.PlError
+			}
+			var getterErrs []getterErr
 			typed := map[string][]bool{} // getter -> success per parameter
 			fn := map[string]*runtimev2.Fn{"f": {
 				CallCheck: func(ctx *runtimev2.Task, e *ast.CallExpr) *errchain.PlError {
@@ -164,11 +175,30 @@ func replayBind(args []string) (any, error) {
 						_, e6 := runtimev2.GetParamMap(ctx, e, params, i)
 						for g, ee := range map[string]*errchain.PlError{"int": e1, "float": e2, "bool": e3, "str": e4, "list": e5, "map": e6} {
 							typed[g] = append(typed[g], ee == nil)
+							if ee != nil {
+								getterErrs = append(getterErrs, getterErr{g, i, ee})
+							}
 						}
 					}
+					ctx.Regs.ReturnAppend(runtimev2.V{V: int64(0), T: ast.Int})
 					return nil
 				},
 			}}
+			wparams := []*runtimev2.Param{{Name: "a", Val: func() any { return int64(0) }}, {Name: "v", Val: func() any { return int64(0) }}}
+			fn["w"] = &runtimev2.Fn{
+				CallCheck: func(ctx *runtimev2.Task, e *ast.CallExpr) *errchain.PlError {
+					return runtimev2.CheckPassParam(ctx, e, wparams)
+				},
+				Call: func(ctx *runtimev2.Task, e *ast.CallExpr) *errchain.PlError {
+					for i := range wparams {
+						if _, err := runtimev2.GetParam(ctx, e, wparams, i); err != nil {
+							return err
+						}
+					}
+					ctx.Regs.ReturnAppend(runtimev2.V{V: int64(0), T: ast.Int})
+					return nil
+				},
+			}
 			sc, lerr := engine.ParseV2("s.p", text, fn)
 			if (lerr == nil) != v.Accepted {
 				sum.miss(sig, map[string]any{"params": v.Params, "call": text, "want_accepted": v.Accepted, "load_err": fmt.Sprint(lerr)})
@@ -209,6 +239,22 @@ func replayBind(args []string) (any, error) {
 						}
 					}
 					return out
+				}
+				// a typed getter that refuses the bound value reports a position inside the call (also when the value is a default the
+				// script did not write), with the line and column of that offset (C17)
+				cs := strings.Index(text, call)
+				for _, ge := range getterErrs {
+					if len(ge.err.PosChain) == 0 {
+						sum.miss(sig+":getter-pos:"+ge.getter, map[string]any{"call": text, "param": ge.param, "problem": "getter error without a position"})
+						break
+					}
+					q := ge.err.PosChain[0]
+					ln, col, _ := token.LnCol(text, token.Pos(q.Pos))
+					if q.Pos < cs || q.Pos >= cs+len(call) || q.Ln != ln || q.Col != col || q.File != "s.p" {
+						sum.miss(sig+":getter-pos:"+ge.getter, map[string]any{"call": text, "param": ge.param, "params": v.Params, "reported": fmt.Sprintf("%s:%d:%d (offset %d)", q.File, q.Ln, q.Col, q.Pos),
+							"problem": fmt.Sprintf("the getter's error must lie inside the call, offsets %d..%d", cs, cs+len(call)-1)})
+						break
+					}
 				}
 				if rerr != nil || getErr != nil || !reflect.DeepEqual(norm(got), norm(want)) {
 					sum.miss(sig, map[string]any{"params": v.Params, "call": text, "want": fmt.Sprint(want), "got": fmt.Sprint(got), "run_err": fmt.Sprint(rerr)})
